@@ -343,3 +343,19 @@ P("C19",
   units=[
    U("c19.private", "c19", "TestPrivate", "private torrents: no DHT, no PEX in either direction, no magnet export, private identity strings; control shows the channels are live", Q(32, 16, 900), T(1200, 16), min_nontrivial_frac=0.2, shrinktime="20s"),
   ])
+
+P("C20",
+  level_text="Schedule exploration with the Go race detector: a race-instrumented child runs a seeding and a leeching session (RPC server enabled, resume writes every 2 ms) that transfer two "
+             "generated torrents while 4..10 client goroutines each execute a generated op list in a loop for 2.5 s over the public API and the RPC client - stats, peers, trackers, web seeds, files, "
+             "file stats, magnet, torrent export, port, add peer by IP and by host name, add tracker, start, stop, verify, announce, session stats, list, add / remove torrents (unique ids), use of a handle "
+             "after removal, and the RPC counterparts. Every race report is reduced to the unordered pair of innermost rain frames; a pair not listed as an open finding is a violation whose replay file carries "
+             "the op lists and the report. Every call has a 20 s watchdog (lock-up) and the child a 90 s one; a crash of the child is a violation with its stack.",
+  level_note="The Go scheduler, not the harness, chooses the interleavings: this is exploration, not enumeration, and a clean run proves nothing about pairs that did not both execute. The detector flags "
+             "unsynchronised pairs that merely both occur in a run, so the evidence reports which ops executed (Counts op:*). Moving torrents between sessions and concurrent add/remove of the SAME id "
+             "(a C14 subject) are not exercised here.",
+  technique="generated-schedule stress under the Go race detector (rapid-generated op lists; race reports deduplicated by frame pair); watchdogs for lock-ups",
+  rule="case = 2 layouts + 4..10 op lists of 3..10 ops; non-trivial = >= 6 distinct ops executed while at least one torrent transferred data; distinct = distinct case",
+  assumptions=["race reports are written by the runtime to a log file per process (GORACE log_path) and parsed after the child exits"],
+  units=[
+   U("c20.race", "c20", "TestRace", "no data race, crash or lock-up under concurrent API/RPC use while transferring", Q(16, 16, 900), T(320, 16), race=True, shrinktime="1s"),
+  ])
